@@ -1124,6 +1124,7 @@ medium_family(void)
     static const size_t bt[] = { 128, 256, 32768, 65536 };
     const size_t *bds = mc_thorough() ? bt : bq;
     const int nb = mc_thorough() ? 4 : 2;
+    bool said_unsupported = false;
     for (int bi = 0; bi < nb; ++bi)
         for (int ds = -1; ds <= 1; ++ds) {
             const size_t bd = bds[bi], S = bd + (size_t)ds;
@@ -1181,8 +1182,27 @@ medium_family(void)
                         ByteBuffer b;
                         memset(&b, 0, sizeof b);
                         const char *outcome = "setup-refused";
+                        const ByteBuffer zeroed = b;
                         if (byte_buffer_set(&b, mem, S, u0, o0) < 0) {
-                            mc_fail("C18/setup-accepts-valid", "byte_buffer_set refused a valid state");
+                            /* the statement promises no range of sizes (as in the large-scope
+                             * family): an implementation whose size type or policy does not
+                             * take buffers of this size refuses them here -- a cap of this
+                             * family, not a violation.  What the refusal leaves behind is
+                             * checked like any refused set-up.  (Refusals at the small-scope
+                             * sizes stay violations: parts A, R, X, J.) */
+                            if (!refused_descriptor_ok(&b, &zeroed))
+                                mc_fail("C18/refusal-unchanged",
+                                        "refused set-up left a changed descriptor that still describes memory: size=%zu used=%zu offset=%zu",
+                                        b.size, b.used, b.offset);
+                            else if (memcmp(mem, img, S) != 0)
+                                mc_fail("C18/refusal-unchanged", "refused set-up changed buffer memory");
+                            if (!said_unsupported)
+                                mc_cap("byte_buffer_set refuses valid states of medium-scope buffers (sizes 127..65537): cases of the refused sizes not decided");
+                            said_unsupported = true;
+                            free(mem);
+                            free(img);
+                            mc_end(false, "medium-unsupported");
+                            continue;
                         } else if (memcmp(mem, img, u0) != 0) {
                             mc_fail("C18/setup-accepts-valid", "set-up changed the octets it was told are filled");
                         } else {
@@ -1631,9 +1651,10 @@ big_family(void)
                         const bool valid = !dnull && S > 0 && used <= S && off <= used;
                         size_t bad = 0;
                         bool unsupported = false;
-                        if (valid && rc < 0 && S >= B31 - 1) {
-                            /* no range of sizes is promised: a cap, not a violation; what a
-                             * refused set-up may leave behind is demanded all the same */
+                        if (valid && rc < 0 && S > MAXSIZE) {
+                            /* no range of sizes is promised (only the small-scope sizes are
+                             * the quantifier's): a cap, not a violation; what a refused
+                             * set-up may leave behind is demanded all the same */
                             unsupported = true;
                             if (!refused_descriptor_ok(&b, &before))
                                 mc_fail("C18/refusal-unchanged",
@@ -1642,7 +1663,8 @@ big_family(void)
                             else if (!hot_check(S, 0, true, BX_SAME, 0, 0, NULL, &bad))
                                 mc_fail("C18/refusal-unchanged", "refused set-up changed octet %#zx", bad);
                             if (!said_unsupported)
-                                mc_cap("byte_buffer_set refuses buffers of 2^31 octets and more: large-scope cases not decided");
+                                mc_cap(S >= B31 - 1 ? "byte_buffer_set refuses buffers of 2^31 octets and more: large-scope cases not decided"
+                                                    : "byte_buffer_set refuses buffers of 255 octets and more: medium- and large-scope cases not decided");
                             said_unsupported = true;
                         } else if (valid) {
                             if (rc < 0)
@@ -1665,6 +1687,225 @@ big_family(void)
                         hot_write();
                         mc_end(!unsupported, unsupported ? "big-unsupported" : valid ? "big-set-ok" : "big-set-refused");
                     }
+        }
+}
+
+/* ---- B3: operations that really move 2^32 octets and more ----------------------
+ * A buffer of more than 4 GiB whose every octet is real memory: the address
+ * range is tiled with shared mappings of one small memory file (TILE octets),
+ * so that octet v of the range is octet v mod TILE of the file.  Three such
+ * ranges over three files: the buffer's memory, a source, a destination.  The
+ * file of each is also mapped once on its own (`phys`): that is where the
+ * harness fills and compares.
+ *
+ * Because positions that are congruent mod TILE share their octet, only
+ * operations whose result is the same whichever of the aliased positions is
+ * written last are run:
+ *   clear                   every octet of the file is zero afterwards;
+ *   add(n), used == 0       file octet p of the buffer == source pattern at p
+ *                           (source octet i is pattern(i mod TILE));
+ *   consume(n) / at-most    destination file octet p == buffer file octet
+ *                           (offset + p) mod TILE, offset a small value;
+ * with n = size = 2^32 + r, r < TILE: an implementation that narrows the
+ * count to 32 bits moves r octets and leaves the rest of the file as it was
+ * pre-filled.  Rewind at this scale is not run (a memmove between aliased
+ * positions has no order-independent result). */
+#include <sys/syscall.h>
+
+#define TILE ((size_t)1 << 22)
+#define HUGE_SPAN (((size_t)1 << 32) + 2 * TILE)
+struct tiled {
+    unsigned char *virt; /* HUGE_SPAN octets of address space */
+    unsigned char *phys; /* the TILE octets behind them */
+};
+static struct tiled huge_buf, huge_src, huge_dst;
+static int huge_state; /* 0 untried, 1 ready, -1 not available */
+
+static bool
+tiled_make(struct tiled *t)
+{
+    int fd = -1;
+#ifdef SYS_memfd_create
+    fd = (int)syscall(SYS_memfd_create, "c18-tile", 0u);
+#endif
+    if (fd < 0) {
+        char name[] = "/tmp/ufw-c18-tile-XXXXXX";
+        fd = mkstemp(name);
+        if (fd >= 0)
+            unlink(name);
+    }
+    if (fd < 0 || ftruncate(fd, (off_t)TILE) != 0) {
+        if (fd >= 0)
+            close(fd);
+        return false;
+    }
+    void *ph = mmap(NULL, TILE, PROT_READ | PROT_WRITE, MAP_SHARED, fd, 0);
+    void *v = mmap(NULL, HUGE_SPAN, PROT_NONE, MAP_PRIVATE | MAP_ANONYMOUS | MAP_NORESERVE, -1, 0);
+    bool ok = ph != MAP_FAILED && v != MAP_FAILED;
+    for (size_t o = 0; ok && o < HUGE_SPAN; o += TILE)
+        ok = mmap((unsigned char *)v + o, TILE, PROT_READ | PROT_WRITE, MAP_SHARED | MAP_FIXED, fd, 0) != MAP_FAILED;
+    close(fd);
+    if (!ok) {
+        if (ph != MAP_FAILED)
+            munmap(ph, TILE);
+        if (v != MAP_FAILED)
+            munmap(v, HUGE_SPAN);
+        return false;
+    }
+    t->virt = v;
+    t->phys = ph;
+    return true;
+}
+
+static bool
+huge_get(void)
+{
+    if (huge_state == 0)
+        huge_state = (tiled_make(&huge_buf) && tiled_make(&huge_src) && tiled_make(&huge_dst)) ? 1 : -1;
+    return huge_state > 0;
+}
+
+static unsigned char
+tile_pattern(size_t i, unsigned salt)
+{
+    /* never 0x00 (clear) and never 0xee (pre-fill of what is to be written) */
+    unsigned char c = (unsigned char)(i * 37 + (i >> 8) * 11 + (i >> 16) * 3 + salt);
+    return (c == 0x00 || c == 0xee) ? (unsigned char)(0x55 + salt) : c;
+}
+
+static void
+huge_family(void)
+{
+    static const char *KN[] = { "clear", "add", "consume", "consume_at_most", "consume_at_most(+1)" };
+    const size_t B32 = (size_t)1 << 32;
+    const size_t rq[] = { 4097 }, rt[] = { 1, 4097, TILE - 1 };
+    const size_t *rs = mc_thorough() ? rt : rq;
+    const int nr = mc_thorough() ? 3 : 1;
+    bool said = false, said_unsupported = false;
+    for (int ri = 0; ri < nr; ++ri)
+        for (int kind = 0; kind < 5; ++kind) {
+            const size_t S = B32 + rs[ri];
+            /* state the operation starts from */
+            const size_t u0 = (kind == 1) ? 0 : S;
+            const size_t o0 = (kind == 0) ? S / 2 : (kind == 1) ? 0 : 3;
+            const size_t rest = u0 - o0;
+            const size_t n = (kind == 1) ? S : (kind == 4) ? rest + 1 : rest;
+            if (!mc_case("huge size=%#zx (real memory: %zu-octet file tiled over the range) state=(used=%#zx,off=%#zx) op=%s(%#zx)",
+                         S, (size_t)TILE, u0, o0, KN[kind], kind == 0 ? (size_t)0 : n))
+                continue;
+            if (!huge_get()) {
+                if (!said)
+                    mc_cap("three tiled 4 GiB ranges not available: operations moving >= 2^32 octets skipped");
+                said = true;
+                mc_end(false, "huge-unmapped");
+                continue;
+            }
+            mc_trans(1);
+            for (size_t i = 0; i < TILE; ++i) {
+                huge_buf.phys[i] = (kind == 1) ? 0xee : tile_pattern(i, 1);
+                huge_src.phys[i] = tile_pattern(i, 2);
+                huge_dst.phys[i] = 0xee;
+            }
+            ByteBuffer b;
+            memset(&b, 0, sizeof b);
+            const ByteBuffer zeroed = b;
+            if (byte_buffer_set(&b, huge_buf.virt, S, u0, o0) < 0) {
+                /* no range of sizes is promised: cap, as in the large-scope family */
+                bool same = true;
+                for (size_t i = 0; i < TILE && same; ++i)
+                    same = huge_buf.phys[i] == ((kind == 1) ? 0xee : tile_pattern(i, 1));
+                if (!refused_descriptor_ok(&b, &zeroed))
+                    mc_fail("C18/refusal-unchanged",
+                            "refused set-up left a changed descriptor that still describes memory: size=%#zx used=%#zx offset=%#zx",
+                            b.size, b.used, b.offset);
+                else if (!same)
+                    mc_fail("C18/refusal-unchanged", "refused set-up changed buffer memory");
+                if (!said_unsupported)
+                    mc_cap("byte_buffer_set refuses buffers of more than 2^32 octets: operations moving >= 2^32 octets not decided");
+                said_unsupported = true;
+                mc_end(false, "huge-unsupported");
+                continue;
+            }
+            {
+                size_t bad = TILE;
+                for (size_t i = 0; i < TILE && bad == TILE; ++i)
+                    if (kind != 1 && huge_buf.phys[i] != tile_pattern(i, 1))
+                        bad = i;
+                if (bad != TILE) {
+                    mc_fail("C18/setup-accepts-valid", "set-up changed octet %zu (mod %zu) it was told is filled", bad, (size_t)TILE);
+                    mc_end(false, "setup-refused");
+                    continue;
+                }
+            }
+            size_t m_used = u0, m_off = o0, bad = TILE;
+            const char *cl = "C18/reset-clear-repeat", *outcome = "huge-clear";
+            if (kind == 0) {
+                byte_buffer_clear(&b);
+                m_used = m_off = 0;
+                for (size_t i = 0; i < TILE && bad == TILE; ++i)
+                    if (huge_buf.phys[i] != 0)
+                        bad = i;
+                if (bad != TILE)
+                    mc_fail("C18/clear-zeroes", "after clear of %#zx octets the octets congruent %zu mod %zu are %02x", S, bad,
+                            (size_t)TILE, huge_buf.phys[bad]);
+            } else if (kind == 1) {
+                cl = "C18/add-appends";
+                outcome = "huge-add";
+                const int rc = byte_buffer_add(&b, huge_src.virt, n);
+                mc_log("add rc=%d", rc);
+                m_used = n;
+                if (rc < 0)
+                    mc_fail(cl, "add of %#zx octets with %#zx free refused rc=%d", n, S, rc);
+                for (size_t i = 0; i < TILE && bad == TILE && !mc.cur_failed; ++i)
+                    if (huge_buf.phys[i] != tile_pattern(i, 2))
+                        bad = i;
+                if (bad != TILE)
+                    mc_fail(cl, "after add of %#zx octets the buffer's octets congruent %zu mod %zu are %02x, source has %02x",
+                            n, bad, (size_t)TILE, huge_buf.phys[bad], tile_pattern(bad, 2));
+            } else {
+                cl = "C18/consume-advances";
+                outcome = kind == 2 ? "huge-consume" : "huge-atmost";
+                ssize_t rc;
+                if (kind == 2)
+                    rc = byte_buffer_consume(&b, huge_dst.virt, n);
+                else
+                    rc = byte_buffer_consume_at_most(&b, huge_dst.virt, n);
+                mc_log("rc=%zd", rc);
+                m_off = u0;
+                if (kind == 2 && rc < 0)
+                    mc_fail("C18/consume-oldest", "consume(%#zx) with %#zx unread refused rc=%zd", n, rest, rc);
+                else if (kind != 2 && rc != (ssize_t)rest)
+                    mc_fail("C18/atmost-count", "consume_at_most(%#zx) with %#zx unread returned %zd", n, rest, rc);
+                for (size_t i = 0; i < TILE && bad == TILE && !mc.cur_failed; ++i) {
+                    /* the destination's octets behind the delivered ones, within the
+                     * stated length, are open (padding): their residues are not compared */
+                    bool open_ = false;
+                    for (size_t j = rest; j < n; ++j)
+                        open_ |= (j % TILE) == i;
+                    if (!open_ && huge_dst.phys[i] != tile_pattern((o0 + i) % TILE, 1))
+                        bad = i;
+                }
+                if (bad != TILE)
+                    mc_fail(kind == 2 ? "C18/consume-oldest" : "C18/atmost-oldest",
+                            "after consuming %#zx octets the destination's octets congruent %zu mod %zu are %02x, the buffer held %02x there",
+                            rest, bad, (size_t)TILE, huge_dst.phys[bad], tile_pattern((o0 + bad) % TILE, 1));
+                /* a consume does not write the buffer */
+                for (size_t i = 0; i < TILE && bad == TILE && !mc.cur_failed; ++i)
+                    if (huge_buf.phys[i] != tile_pattern(i, 1))
+                        bad = i;
+                if (bad != TILE && !mc.cur_failed)
+                    mc_fail(cl, "consume changed the buffer's content (octets congruent %zu mod %zu)", bad, (size_t)TILE);
+            }
+            mc_log("after: size=%#zx used=%#zx offset=%#zx", b.size, b.used, b.offset);
+            if (!mc.cur_failed) {
+                if (b.data != huge_buf.virt || b.size != S)
+                    mc_fail("C18/geometry-unchanged", "data/size changed: size=%#zx", b.size);
+                else if (!(b.offset <= b.used && b.used <= b.size))
+                    mc_fail("C18/invariant", "offset=%#zx used=%#zx size=%#zx", b.offset, b.used, b.size);
+                else if (b.used != m_used || b.offset != m_off)
+                    mc_fail(cl, "fields used=%#zx offset=%#zx, model used=%#zx offset=%#zx", b.used, b.offset, m_used, m_off);
+            }
+            mc_end(true, outcome);
         }
 }
 
@@ -1692,15 +1933,18 @@ main(int argc, char **argv)
     medium_family();
     mc_partition(-1, 102);
     big_family();
-    char bound[1400];
+    mc_partition(-1, 105);
+    huge_family();
+    char bound[1800];
     snprintf(bound, sizeof bound,
              "sizes 1..%zu, octets {00,a1,b2}, all operations, operand lengths 0..size+1, to fixpoint; "
              "far operands 2^{8,15,16,31,32,3*2^32,48,63,64}-/+(size+1) in every reached state (consume/at-most: up to 3*2^32, into a destination of that length); "
              "set-up matrix (small and far used/offset) on zeroed/ff/nulled/in-use(every used,offset) descriptors + every operation once after an accepted re-set-up; "
              "sizes 2^{%s}-1..+1 on exact heap blocks x boundary (used,offset) x boundary/far operands, all operations; "
              "sizes 2^31-1..2^31+1, 2^32-1..2^32+1, 2^32+7 on a lazily backed mapping x boundary (used,offset) x operations moving <= 8 octets or refusing (no clear), set-up matrix at that scale; "
+             "sizes 2^32+{%s} of real memory (a 4 MiB file tiled over the range; source and destination likewise) x {clear, add(size) into the empty buffer, consume(rest), consume_at_most(rest), consume_at_most(rest+1) from the full buffer at offset 3}; "
              "every operation with a side-effect buffer argument in every (used,offset) of sizes 1..%d; operands touching the buffer's memory (front/behind, gap 0/1) for every state and length of sizes 1..%zu",
-             maxsize, mc_thorough() ? "7,8,15,16" : "8,16", mc_thorough() ? 5 : 3, maxsize);
+             maxsize, mc_thorough() ? "7,8,15,16" : "8,16", mc_thorough() ? "1,4097,2^22-1" : "4097", mc_thorough() ? 5 : 3, maxsize);
     mc_finish(true, bound);
     return 0;
 }
